@@ -176,7 +176,7 @@ theorem construct_of_args_ok (hlen : pmf.length = outs.length)
       then .error .invalidProbability
       else .ok (finish cfg (spaceArg symLt outLt outs sp) outs pmf base sparse trim) := by
   have h2 : (outs.isEmpty && noSpace sp) = false := by
-    rw [Bool.and_eq_false_iff, List.isEmpty_iff]
+    rw [Bool.and_eq_false_iff]
     by_cases h : outs = []
     · right; simpa [h] using hne
     · left; simpa using h
@@ -206,6 +206,419 @@ theorem construct_of_args_ok (hlen : pmf.length = outs.length)
         exact hr ⟨v, hv, by simpa using hvr⟩
       simp [hn, hr, this]
 
+/-- The four early exits. -/
+theorem construct_of_len_bad (h : pmf.length ≠ outs.length) :
+    construct cfg symLt outLt outs pmf sp base sparse trim = .error .invalidDistribution := by
+  rw [construct_eq, if_pos h]
+
+theorem construct_of_empty (hlen : pmf.length = outs.length)
+    (h : outs = [] ∧ noSpace sp = true) :
+    construct cfg symLt outLt outs pmf sp base sparse trim = .error .invalidDistribution := by
+  rw [construct_eq, if_neg (by simpa using hlen)]
+  simp [h.1, h.2]
+
+theorem construct_of_ragged (hlen : pmf.length = outs.length)
+    (hne : ¬ (outs = [] ∧ noSpace sp = true)) (h : raggedArg outs sp = true) :
+    construct cfg symLt outLt outs pmf sp base sparse trim = .error .ditException := by
+  have h2 : (outs.isEmpty && noSpace sp) = false := by
+    rw [Bool.and_eq_false_iff]
+    by_cases h : outs = []
+    · right; simpa [h] using hne
+    · left; simpa using h
+  rw [construct_eq, if_neg (by simpa using hlen), h2, h]
+  simp
+
+theorem construct_of_outsider (hlen : pmf.length = outs.length)
+    (hne : ¬ (outs = [] ∧ noSpace sp = true)) (hrect : raggedArg outs sp = false)
+    (h : ¬ ∀ o ∈ outs, o ∈ (spaceArg symLt outLt outs sp).toList) :
+    construct cfg symLt outLt outs pmf sp base sparse trim = .error .invalidOutcome := by
+  have h2 : (outs.isEmpty && noSpace sp) = false := by
+    rw [Bool.and_eq_false_iff]
+    by_cases h : outs = []
+    · right; simpa [h] using hne
+    · left; simpa using h
+  have h4 : (!outs.all (spaceArg symLt outLt outs sp).mem) = true := by
+    rw [Bool.not_eq_true', List.all_eq_false]
+    push Not at h
+    obtain ⟨o, ho, hno⟩ := h
+    exact ⟨o, ho, fun e => hno ((Space.mem_iff _ _).mp e)⟩
+  rw [construct_eq, if_neg (by simpa using hlen), h2, hrect, h4]
+  simp
+
+/-- **Master case analysis.** Exactly one of seven scenarios occurs; each is described by
+which checks passed (in the order in which they are made) and fixes the result. -/
+theorem construct_cases :
+    (pmf.length ≠ outs.length ∧
+      construct cfg symLt outLt outs pmf sp base sparse trim = .error .invalidDistribution) ∨
+    (pmf.length = outs.length ∧ (outs = [] ∧ noSpace sp = true) ∧
+      construct cfg symLt outLt outs pmf sp base sparse trim = .error .invalidDistribution) ∨
+    (pmf.length = outs.length ∧ ¬ (outs = [] ∧ noSpace sp = true) ∧ raggedArg outs sp = true ∧
+      construct cfg symLt outLt outs pmf sp base sparse trim = .error .ditException) ∨
+    (pmf.length = outs.length ∧ ¬ (outs = [] ∧ noSpace sp = true) ∧ raggedArg outs sp = false ∧
+      (¬ ∀ o ∈ outs, o ∈ (spaceArg symLt outLt outs sp).toList) ∧
+      construct cfg symLt outLt outs pmf sp base sparse trim = .error .invalidOutcome) ∨
+    (pmf.length = outs.length ∧ ¬ (outs = [] ∧ noSpace sp = true) ∧ raggedArg outs sp = false ∧
+      (∀ o ∈ outs, o ∈ (spaceArg symLt outLt outs sp).toList) ∧
+      cfg.normOK base (lsum (vals
+        (finish cfg (spaceArg symLt outLt outs sp) outs pmf base sparse trim).tab)) = false ∧
+      construct cfg symLt outLt outs pmf sp base sparse trim = .error .invalidNormalization) ∨
+    (pmf.length = outs.length ∧ ¬ (outs = [] ∧ noSpace sp = true) ∧ raggedArg outs sp = false ∧
+      (∀ o ∈ outs, o ∈ (spaceArg symLt outLt outs sp).toList) ∧
+      cfg.normOK base (lsum (vals
+        (finish cfg (spaceArg symLt outLt outs sp) outs pmf base sparse trim).tab)) = true ∧
+      (∃ v ∈ vals (finish cfg (spaceArg symLt outLt outs sp) outs pmf base sparse trim).tab,
+        cfg.rangeOK base v = false) ∧
+      construct cfg symLt outLt outs pmf sp base sparse trim = .error .invalidProbability) ∨
+    (pmf.length = outs.length ∧ ¬ (outs = [] ∧ noSpace sp = true) ∧ raggedArg outs sp = false ∧
+      (∀ o ∈ outs, o ∈ (spaceArg symLt outLt outs sp).toList) ∧
+      cfg.normOK base (lsum (vals
+        (finish cfg (spaceArg symLt outLt outs sp) outs pmf base sparse trim).tab)) = true ∧
+      (∀ v ∈ vals (finish cfg (spaceArg symLt outLt outs sp) outs pmf base sparse trim).tab,
+        cfg.rangeOK base v = true) ∧
+      construct cfg symLt outLt outs pmf sp base sparse trim
+        = .ok (finish cfg (spaceArg symLt outLt outs sp) outs pmf base sparse trim)) := by
+  by_cases h1 : pmf.length = outs.length
+  swap
+  · exact Or.inl ⟨h1, construct_of_len_bad _ _ _ _ _ _ _ _ _ h1⟩
+  by_cases h2 : outs = [] ∧ noSpace sp = true
+  · exact Or.inr (Or.inl ⟨h1, h2, construct_of_empty _ _ _ _ _ _ _ _ _ h1 h2⟩)
+  by_cases h3 : raggedArg outs sp = true
+  · exact Or.inr (Or.inr (Or.inl ⟨h1, h2, h3, construct_of_ragged _ _ _ _ _ _ _ _ _ h1 h2 h3⟩))
+  rw [Bool.not_eq_true] at h3
+  by_cases h4 : ∀ o ∈ outs, o ∈ (spaceArg symLt outLt outs sp).toList
+  swap
+  · exact Or.inr (Or.inr (Or.inr (Or.inl
+      ⟨h1, h2, h3, h4, construct_of_outsider _ _ _ _ _ _ _ _ _ h1 h2 h3 h4⟩)))
+  have hc := construct_of_args_ok cfg symLt outLt outs pmf sp base sparse trim h1 h2 h3 h4
+  by_cases h5 : cfg.normOK base (lsum (vals
+        (finish cfg (spaceArg symLt outLt outs sp) outs pmf base sparse trim).tab)) = false
+  · rw [if_pos h5] at hc
+    exact Or.inr (Or.inr (Or.inr (Or.inr (Or.inl ⟨h1, h2, h3, h4, h5, hc⟩))))
+  rw [if_neg h5] at hc
+  rw [Bool.not_eq_false] at h5
+  by_cases h6 : ∃ v ∈ vals (finish cfg (spaceArg symLt outLt outs sp) outs pmf base sparse trim).tab,
+        cfg.rangeOK base v = false
+  · rw [if_pos h6] at hc
+    exact Or.inr (Or.inr (Or.inr (Or.inr (Or.inr (Or.inl ⟨h1, h2, h3, h4, h5, h6, hc⟩)))))
+  · rw [if_neg h6] at hc
+    refine Or.inr (Or.inr (Or.inr (Or.inr (Or.inr (Or.inr ⟨h1, h2, h3, h4, h5, ?_, hc⟩)))))
+    intro v hv
+    by_contra hvr
+    exact h6 ⟨v, hv, by simpa using hvr⟩
+
+/-- **Inversion.** The constructor succeeds exactly when all six checks pass, and then
+returns the built object. -/
+theorem construct_ok_iff (d : Dist σ α) :
+    construct cfg symLt outLt outs pmf sp base sparse trim = .ok d ↔
+      pmf.length = outs.length ∧ ¬ (outs = [] ∧ noSpace sp = true) ∧ raggedArg outs sp = false ∧
+      (∀ o ∈ outs, o ∈ (spaceArg symLt outLt outs sp).toList) ∧
+      cfg.normOK base (lsum (vals
+        (finish cfg (spaceArg symLt outLt outs sp) outs pmf base sparse trim).tab)) = true ∧
+      (∀ v ∈ vals (finish cfg (spaceArg symLt outLt outs sp) outs pmf base sparse trim).tab,
+        cfg.rangeOK base v = true) ∧
+      d = finish cfg (spaceArg symLt outLt outs sp) outs pmf base sparse trim := by
+  have hc := construct_cases cfg symLt outLt outs pmf sp base sparse trim
+  constructor
+  · intro h
+    rw [h] at hc
+    rcases hc with ⟨_, hc⟩ | ⟨_, _, hc⟩ | ⟨_, _, _, hc⟩ | ⟨_, _, _, _, hc⟩ | ⟨_, _, _, _, _, hc⟩ |
+      ⟨_, _, _, _, _, _, hc⟩ | ⟨h1, h2, h3, h4, h5, h6, hc⟩
+    iterate 6 (· cases hc)
+    exact ⟨h1, h2, h3, h4, h5, h6, Except.ok.inj hc⟩
+  · rintro ⟨h1, h2, h3, h4, h5, h6, rfl⟩
+    rcases hc with ⟨h, _⟩ | ⟨_, h, _⟩ | ⟨_, _, h, _⟩ | ⟨_, _, _, h, _⟩ | ⟨_, _, _, _, h, _⟩ |
+      ⟨_, _, _, _, _, h, _⟩ | ⟨_, _, _, _, _, _, hc⟩
+    · exact absurd h1 h
+    · exact absurd h h2
+    · rw [h3] at h; exact absurd h (by simp)
+    · exact absurd h4 h
+    · rw [h5] at h; exact absurd h (by simp)
+    · obtain ⟨v, hv, hvr⟩ := h
+      rw [h6 v hv] at hvr; exact absurd hvr (by simp)
+    · exact hc
+
+/-- `InvalidDistribution`: exactly the length mismatch and the empty specification. -/
+theorem construct_invalidDistribution_iff :
+    construct cfg symLt outLt outs pmf sp base sparse trim = .error .invalidDistribution ↔
+      pmf.length ≠ outs.length ∨ (outs = [] ∧ noSpace sp = true) := by
+  have hc := construct_cases cfg symLt outLt outs pmf sp base sparse trim
+  constructor
+  · intro h
+    rw [h] at hc
+    rcases hc with ⟨h1, hc⟩ | ⟨h1, h2, hc⟩ | ⟨h1, h2, h3, hc⟩ | ⟨h1, h2, h3, h4, hc⟩ |
+      ⟨h1, h2, h3, h4, h5, hc⟩ | ⟨h1, h2, h3, h4, h5, h6, hc⟩ | ⟨h1, h2, h3, h4, h5, h6, hc⟩
+    all_goals first | (cases hc; done) | exact Or.inl h1 | exact Or.inr h2
+  · rintro (h | h)
+    · exact construct_of_len_bad _ _ _ _ _ _ _ _ _ h
+    · by_cases hl : pmf.length = outs.length
+      · exact construct_of_empty _ _ _ _ _ _ _ _ _ hl h
+      · exact construct_of_len_bad _ _ _ _ _ _ _ _ _ hl
+
+/-- `ditException`: exactly the ragged specifications that got past the first two checks. -/
+theorem construct_ditException_iff :
+    construct cfg symLt outLt outs pmf sp base sparse trim = .error .ditException ↔
+      pmf.length = outs.length ∧ ¬ (outs = [] ∧ noSpace sp = true) ∧ raggedArg outs sp = true := by
+  have hc := construct_cases cfg symLt outLt outs pmf sp base sparse trim
+  constructor
+  · intro h
+    rw [h] at hc
+    rcases hc with ⟨h1, hc⟩ | ⟨h1, h2, hc⟩ | ⟨h1, h2, h3, hc⟩ | ⟨h1, h2, h3, h4, hc⟩ |
+      ⟨h1, h2, h3, h4, h5, hc⟩ | ⟨h1, h2, h3, h4, h5, h6, hc⟩ | ⟨h1, h2, h3, h4, h5, h6, hc⟩
+    all_goals first | (cases hc; done) | exact ⟨h1, h2, h3⟩
+  · rintro ⟨h1, h2, h3⟩
+    exact construct_of_ragged _ _ _ _ _ _ _ _ _ h1 h2 h3
+
+/-- `InvalidOutcome`: exactly when the first three checks pass and some given outcome is not
+in the sample space. -/
+theorem construct_invalidOutcome_iff :
+    construct cfg symLt outLt outs pmf sp base sparse trim = .error .invalidOutcome ↔
+      pmf.length = outs.length ∧ ¬ (outs = [] ∧ noSpace sp = true) ∧ raggedArg outs sp = false ∧
+      ∃ o ∈ outs, o ∉ (spaceArg symLt outLt outs sp).toList := by
+  have hc := construct_cases cfg symLt outLt outs pmf sp base sparse trim
+  constructor
+  · intro h
+    rw [h] at hc
+    rcases hc with ⟨h1, hc⟩ | ⟨h1, h2, hc⟩ | ⟨h1, h2, h3, hc⟩ | ⟨h1, h2, h3, h4, hc⟩ |
+      ⟨h1, h2, h3, h4, h5, hc⟩ | ⟨h1, h2, h3, h4, h5, h6, hc⟩ | ⟨h1, h2, h3, h4, h5, h6, hc⟩
+    all_goals first | (cases hc; done) | exact ⟨h1, h2, h3, by push Not at h4; exact h4⟩
+  · rintro ⟨h1, h2, h3, o, ho, hno⟩
+    exact construct_of_outsider _ _ _ _ _ _ _ _ _ h1 h2 h3 (fun hall => hno (hall o ho))
+
+/-- `InvalidNormalization`: exactly when the four argument checks pass and the total of the
+stored values fails `normOK`. -/
+theorem construct_invalidNormalization_iff :
+    construct cfg symLt outLt outs pmf sp base sparse trim = .error .invalidNormalization ↔
+      pmf.length = outs.length ∧ ¬ (outs = [] ∧ noSpace sp = true) ∧ raggedArg outs sp = false ∧
+      (∀ o ∈ outs, o ∈ (spaceArg symLt outLt outs sp).toList) ∧
+      cfg.normOK base (lsum (vals (finish cfg (spaceArg symLt outLt outs sp) outs pmf base sparse trim).tab)) = false := by
+  have hc := construct_cases cfg symLt outLt outs pmf sp base sparse trim
+  constructor
+  · intro h
+    rw [h] at hc
+    rcases hc with ⟨h1, hc⟩ | ⟨h1, h2, hc⟩ | ⟨h1, h2, h3, hc⟩ | ⟨h1, h2, h3, h4, hc⟩ |
+      ⟨h1, h2, h3, h4, h5, hc⟩ | ⟨h1, h2, h3, h4, h5, h6, hc⟩ | ⟨h1, h2, h3, h4, h5, h6, hc⟩
+    all_goals first | (cases hc; done) | exact ⟨h1, h2, h3, h4, h5⟩
+  · rintro ⟨h1, h2, h3, h4, h5⟩
+    rw [construct_of_args_ok _ _ _ _ _ _ _ _ _ h1 h2 h3 h4, if_pos h5]
+
+/-- `InvalidProbability`: exactly when everything up to normalisation passes and some stored
+value fails `rangeOK`. -/
+theorem construct_invalidProbability_iff :
+    construct cfg symLt outLt outs pmf sp base sparse trim = .error .invalidProbability ↔
+      pmf.length = outs.length ∧ ¬ (outs = [] ∧ noSpace sp = true) ∧ raggedArg outs sp = false ∧
+      (∀ o ∈ outs, o ∈ (spaceArg symLt outLt outs sp).toList) ∧
+      cfg.normOK base (lsum (vals (finish cfg (spaceArg symLt outLt outs sp) outs pmf base sparse trim).tab)) = true ∧
+      ∃ v ∈ vals (finish cfg (spaceArg symLt outLt outs sp) outs pmf base sparse trim).tab, cfg.rangeOK base v = false := by
+  have hc := construct_cases cfg symLt outLt outs pmf sp base sparse trim
+  constructor
+  · intro h
+    rw [h] at hc
+    rcases hc with ⟨h1, hc⟩ | ⟨h1, h2, hc⟩ | ⟨h1, h2, h3, hc⟩ | ⟨h1, h2, h3, h4, hc⟩ |
+      ⟨h1, h2, h3, h4, h5, hc⟩ | ⟨h1, h2, h3, h4, h5, h6, hc⟩ | ⟨h1, h2, h3, h4, h5, h6, hc⟩
+    all_goals first | (cases hc; done) | exact ⟨h1, h2, h3, h4, h5, h6⟩
+  · rintro ⟨h1, h2, h3, h4, h5, h6⟩
+    rw [construct_of_args_ok _ _ _ _ _ _ _ _ _ h1 h2 h3 h4, if_neg (by simp [h5]), if_pos h6]
+
 end Invert
+
+/-! ## Lookups in the built object -/
+
+section Lookup
+variable [DecidableEq σ] [AddCommMonoid α]
+variable (cfg : NumCfg α) (space : Space σ) (outs : List (List σ)) (pmf : List α)
+  (base : Base) (sparse trim : Bool)
+
+theorem nodup_keys_zip (h : outs.Nodup) : (keys (outs.zip pmf)).Nodup :=
+  h.sublist (Machine.keys_zip_sublist outs pmf)
+
+theorem nodup_keys_sorted (h : outs.Nodup) :
+    (keys (sortBy space.rank (outs.zip pmf))).Nodup :=
+  (nodup_keys_sortBy _ _).mpr (nodup_keys_zip outs pmf h)
+
+/-- The `i`-th specified pair is what `lookup?` finds in `zip(outcomes, pmf)`. -/
+theorem lookup?_zip (hnd : outs.Nodup) {i : Nat} {o : List σ} {p : α}
+    (ho : outs[i]? = some o) (hp : pmf[i]? = some p) : lookup? (outs.zip pmf) o = some p := by
+  rw [lookup?_eq_some_iff (nodup_keys_zip outs pmf hnd)]
+  exact List.mem_iff_getElem?.mpr ⟨i, List.getElem?_zip_eq_some.mpr ⟨ho, hp⟩⟩
+
+theorem lookupD_sorted_specified (hnd : outs.Nodup) {i : Nat} {o : List σ} {p : α}
+    (ho : outs[i]? = some o) (hp : pmf[i]? = some p) :
+    lookupD 0 (sortBy space.rank (outs.zip pmf)) o = p := by
+  rw [lookupD_sortBy _ _ (nodup_keys_zip outs pmf hnd)]
+  unfold lookupD
+  rw [lookup?_zip outs pmf hnd ho hp]; rfl
+
+theorem not_mem_keys_sorted {o : List σ} (ho : o ∉ outs) :
+    o ∉ keys (sortBy space.rank (outs.zip pmf)) :=
+  fun h => ho (mem_of_mem_keys_sorted space outs pmf h)
+
+/-- Lookup of a specified outcome: the specified value, except that a null value is read
+back as an exact zero after trimming. -/
+theorem get_finish_specified (hnd : outs.Nodup) {i : Nat} {o : List σ} {p : α}
+    (hmem : o ∈ space.toList) (ho : outs[i]? = some o) (hp : pmf[i]? = some p) :
+    (finish cfg space outs pmf base sparse trim).get o
+      = some (if sparse = true ∧ trim = true ∧ cfg.isNull base p = true then 0 else p) := by
+  have hl := lookupD_sorted_specified space outs pmf hnd ho hp
+  cases sparse with
+  | false =>
+    show (Dist.mk space (sortBy space.rank (outs.zip pmf)) false base).makeDense.get o = _
+    rw [get_makeDense, get_eq]
+    simp [hmem, hl]
+  | true =>
+    cases trim with
+    | false =>
+      rw [get_eq, finish_space, finish_tab_untrimmed]
+      simp [hmem, hl]
+    | true =>
+      show ((Dist.mk space (sortBy space.rank (outs.zip pmf)) true base).makeSparse cfg true).get o
+        = _
+      rw [get_makeSparse_trim cfg _ (nodup_keys_sorted space outs pmf hnd)]
+      have hk : o ∈ keys (sortBy space.rank (outs.zip pmf)) := by
+        rw [mem_keys_sortBy]
+        have := List.mem_of_getElem? (List.getElem?_zip_eq_some.mpr ⟨ho, hp⟩ :
+          (outs.zip pmf)[i]? = some (o, p))
+        exact mem_keys.mpr ⟨p, this⟩
+      simp [hmem, hl, hk]
+
+/-- Lookup of a member of the sample space that was not specified: the null probability. -/
+theorem get_finish_rest {o : List σ} (hmem : o ∈ space.toList) (ho : o ∉ outs) :
+    (finish cfg space outs pmf base sparse trim).get o = some 0 := by
+  have hk := not_mem_keys_sorted space outs pmf ho
+  cases sparse with
+  | false =>
+    show (Dist.mk space (sortBy space.rank (outs.zip pmf)) false base).makeDense.get o = _
+    rw [get_makeDense, get_eq]
+    simp [hmem, lookupD_of_not_mem 0 hk]
+  | true =>
+    rw [get_eq, finish_space, if_pos hmem]
+    cases trim with
+    | false => rw [finish_tab_untrimmed, lookupD_of_not_mem 0 hk]
+    | true =>
+      rw [finish_tab_trimmed, lookupD_of_not_mem 0 (fun h => hk ((keys_filter_sublist _ _).subset h))]
+
+/-- Lookup outside the sample space: `InvalidOutcome`. -/
+theorem get_finish_outside {o : List σ} (hmem : o ∉ space.toList) :
+    (finish cfg space outs pmf base sparse trim).get o = none := by
+  rw [get_eq, finish_space, if_neg hmem]
+
+end Lookup
+
+/-! ## Alignment of the stored table -/
+
+section Aligned
+variable [DecidableEq σ] [AddCommMonoid α]
+variable (cfg : NumCfg α) (space : Space σ) (outs : List (List σ)) (pmf : List α)
+  (base : Base) (sparse trim : Bool)
+
+/-- Members of a list with equal ranks (index of first occurrence) are equal. -/
+theorem rank_inj {κ : Type} [DecidableEq κ] {l : List κ} {x y : κ} (hx : x ∈ l) (hy : y ∈ l)
+    (h : (indexOf? l x).getD l.length = (indexOf? l y).getD l.length) : x = y := by
+  cases hi : indexOf? l x with
+  | none => exact absurd hx (indexOf?_eq_none_iff.mp hi)
+  | some i =>
+    cases hj : indexOf? l y with
+    | none => exact absurd hy (indexOf?_eq_none_iff.mp hj)
+    | some j =>
+      rw [hi, hj] at h
+      simp only [Option.getD_some] at h
+      subst h
+      have h1 := (indexOf?_eq_some hi).1
+      have h2 := (indexOf?_eq_some hj).1
+      rw [h1] at h2
+      exact Option.some.inj h2
+
+theorem keys_finish_dense :
+    keys (finish cfg space outs pmf base false trim).tab = space.toList := by
+  rw [finish_tab_dense, keys_map_graph]
+
+/-- Stored outcomes are pairwise distinct: in sparse mode because the given ones are, in dense
+mode because (and only if) the enumeration of the sample space is. -/
+theorem nodup_keys_finish (hnd : outs.Nodup) (h : sparse = true ∨ space.toList.Nodup) :
+    (keys (finish cfg space outs pmf base sparse trim).tab).Nodup := by
+  cases sparse with
+  | false =>
+    rw [keys_finish_dense]
+    rcases h with h | h
+    · cases h
+    · exact h
+  | true =>
+    cases trim with
+    | false => exact nodup_keys_sorted space outs pmf hnd
+    | true => exact nodup_keys_filter _ (nodup_keys_sorted space outs pmf hnd)
+
+/-- Sparse mode: the stored outcomes are in non-decreasing sample-space rank. -/
+theorem sorted_keys_finish_sparse :
+    (keys (finish cfg space outs pmf base true trim).tab).Pairwise
+      (fun a b => space.rank a ≤ space.rank b) := by
+  cases trim with
+  | false => exact keys_sortBy_sorted _ _
+  | true => exact pairwise_keys_filter _ _ (keys_sortBy_sorted _ _)
+
+/-- Pairwise distinct stored members of the sample space in non-decreasing rank are in
+strictly increasing rank. -/
+theorem strict_of_sorted_nodup {l : List (List σ)} (hmem : ∀ k ∈ l, k ∈ space.toList)
+    (hnd : l.Nodup) (hs : l.Pairwise (fun a b => space.rank a ≤ space.rank b)) :
+    l.Pairwise (fun a b => space.rank a < space.rank b) := by
+  refine (hs.and hnd).imp_of_mem ?_
+  intro a b ha hb ⟨hle, hne⟩
+  refine Nat.lt_of_le_of_ne hle (fun e => hne ?_)
+  exact rank_inj (hmem a ha) (hmem b hb) e
+
+/-- The stored outcomes are in strictly increasing sample-space rank. -/
+theorem strict_keys_finish (hmem : ∀ o ∈ outs, o ∈ space.toList) (hnd : outs.Nodup)
+    (h : sparse = true ∨ space.toList.Nodup) :
+    (keys (finish cfg space outs pmf base sparse trim).tab).Pairwise
+      (fun a b => space.rank a < space.rank b) := by
+  cases sparse with
+  | false =>
+    rw [keys_finish_dense]
+    rcases h with h | h
+    · cases h
+    · exact Space.pairwise_rank space h
+  | true =>
+    exact strict_of_sorted_nodup space
+      (fun k hk => mem_space_of_mem_keys_finish cfg space outs pmf base true trim hmem hk)
+      (nodup_keys_finish cfg space outs pmf base true trim hnd (Or.inl rfl))
+      (sorted_keys_finish_sparse cfg space outs pmf base trim)
+
+/-- Trimmed: no stored value is null. -/
+theorem finish_trimmed {r : List σ × α} (hr : r ∈ (finish cfg space outs pmf base true true).tab) :
+    cfg.isNull base r.2 = false := by
+  rw [finish_tab_trimmed, List.mem_filter] at hr
+  simpa using hr.2
+
+/-- Trimmed: the stored outcomes are exactly the specified ones with a non-null value. -/
+theorem mem_keys_finish_trimmed {k : List σ} :
+    k ∈ keys (finish cfg space outs pmf base true true).tab ↔
+      ∃ p, (k, p) ∈ outs.zip pmf ∧ cfg.isNull base p = false := by
+  rw [finish_tab_trimmed, mem_keys_filter]
+  constructor
+  · rintro ⟨v, hv, hq⟩
+    exact ⟨v, (sortBy_perm _ _).mem_iff.mp hv, by simpa using hq⟩
+  · rintro ⟨v, hv, hq⟩
+    exact ⟨v, (sortBy_perm _ _).mem_iff.mpr hv, by simpa using hq⟩
+
+/-- Untrimmed sparse: the stored outcomes are the specified ones, reordered. -/
+theorem keys_finish_untrimmed_perm (hlen : pmf.length = outs.length) :
+    (keys (finish cfg space outs pmf base true false).tab).Perm outs := by
+  rw [finish_tab_untrimmed]
+  have := keys_sortBy_perm space.rank (outs.zip pmf)
+  rwa [keys_zip outs pmf hlen] at this
+
+/-- Untrimmed sparse: the stored rows are the specified pairs, reordered. -/
+theorem tab_finish_untrimmed_perm :
+    (finish cfg space outs pmf base true false).tab.Perm (outs.zip pmf) := by
+  rw [finish_tab_untrimmed]; exact sortBy_perm _ _
+
+/-- Row alignment: the value stored next to an outcome is what lookup of that outcome
+returns. -/
+theorem get_of_mem_tab {d : Dist σ α} (hnd : (keys d.tab).Nodup)
+    (hmem : ∀ k ∈ keys d.tab, k ∈ d.space.toList) {r : List σ × α} (hr : r ∈ d.tab) :
+    d.get r.1 = some r.2 := by
+  rw [get_eq, if_pos (hmem _ (mem_keys_of_mem hr))]
+  unfold lookupD
+  rw [(lookup?_eq_some_iff hnd).mpr hr]; rfl
+
+end Aligned
 
 end Dit.Lemmas.Construct
